@@ -72,6 +72,41 @@ theorem C02_write_read (T : Tables) (x : Scn) (m : PB) (hw : encodePb T x = .ok 
   rw [((C02_encode_ok_iff T x m).mp hw).2]
   exact C02_pb_roundtrip x h
 
+/-! ## One writer object, several files -/
+
+/-- started from a fresh message the writer's helpers build exactly `encScn` (of the scenario without planning problems for
+    `write_scenario_to_file`) -/
+theorem C02_fill_fresh (x : Scn) (b : Bool) : fillScn (.msg []) x b = encScn (x.only b) := by
+  cases b <;> simp [fillScn, encScn, Scn.only, PB.get, PB.items]
+
+/-- **A writer object has no memory**: whatever calls (`write_to_file` / `write_scenario_to_file`, any number, any order)
+    were made on it before, every call writes exactly the message of ITS scenario (without planning problems for
+    `write_scenario_to_file`) — the file does not depend on the history of the writer object. -/
+theorem C02_writer_history (x : Scn) : ∀ (w : Wr) (ops : List Bool), w.run x ops = ops.map fun b => encScn (x.only b)
+  | _, [] => rfl
+  | w, b :: r => by
+    simp only [Wr.run, List.map_cons, Wr.write, C02_fill_fresh]
+    rw [C02_writer_history x _ r]
+
+/-- so every file of a reused writer reads back as the content handed to the writer -/
+theorem C02_writer_history_read (x : Scn) (h : x.wf = true) (w : Wr) (ops : List Bool) :
+    (w.run x ops).map decodePb = ops.map fun b => .ok (normPb (x.only b)) := by
+  rw [C02_writer_history x w ops, List.map_map]
+  apply List.map_congr_left
+  intro b _
+  have hw : (x.only b).wf = true := by
+    cases b
+    · simp only [Scn.wf, Bool.and_eq_true] at h ⊢
+      simp [Scn.only, Scn.wf, h.1]
+    · exact h
+  exact C02_pb_roundtrip _ hw
+
+/-- **Witness: the reset is load-bearing.**  Filling the message left behind by an earlier write instead of a fresh one
+    (what a `write_scenario_to_file` without `self._commonroad_msg = CommonRoad()` does) writes every lanelet twice. -/
+theorem C02_witness_no_reset : ∃ x : Scn, ((fillScn (encScn x) x false).get "lanelets").items.length
+    ≠ ((encScn (x.only false)).get "lanelets").items.length :=
+  ⟨{ (default : Scn) with lanelets := [default] }, by decide⟩
+
 /-! ## `normPb` is the identity on content -/
 
 theorem normLanelet_of_typed (l : Lanelet) (h : (l.lm_left.isSome && l.lm_right.isSome) = true) : normLanelet l = l := by
